@@ -106,6 +106,18 @@ pub fn install_guards(path: &str, hang_secs: u64) {
     });
 }
 
+/// Writes a failing case to the breadcrumb file at once, so that it is not lost if another worker
+/// hangs or the process dies before the report is written.
+pub fn note_failure(case: &Case) {
+    let fd = CRASH_FD.load(Ordering::SeqCst);
+    if fd >= 0 {
+        let line = format!("FAIL worker={} {}\n", WORKER.with(|w| w.get()), case.to_json());
+        unsafe {
+            libc::write(fd, line.as_ptr() as *const libc::c_void, line.len());
+        }
+    }
+}
+
 pub fn guards_done() {
     DONE.store(true, Ordering::SeqCst);
 }
@@ -233,6 +245,7 @@ pub fn run_enum(prop: Prop, thorough: bool, threads: usize) -> (Stats, Option<Fo
                                 ud = ud.wrapping_mul(0x100000001b3) ^ r.digest;
                             }
                             Err((case, msg)) => {
+                                note_failure(&case);
                                 fail_at.fetch_min(u, Ordering::SeqCst);
                                 found.lock().unwrap().push(Found { order: (u, i), case, msg });
                                 break;
@@ -304,6 +317,9 @@ pub fn run_prop(prop: Prop, cases: u32, max_ops: usize, seed: u64, threads: usiz
                             Ok(())
                         }
                         Err(msg) => {
+                            if !failed.get() {
+                                note_failure(&crate::props::resolve_fault(prop, &case));
+                            }
                             failed.set(true);
                             Err(TestCaseError::fail(msg))
                         }
